@@ -189,7 +189,7 @@ fn table(rep: &Arc<Reporter>, ctx: &Arc<Ctx>) {
 fn histories(rep: &Arc<Reporter>, args: &Args, ctx: &Arc<Ctx>) {
     let rt = env::rt_paused();
     let all = creds();
-    let n = args.qt(300u64, 8000u64);
+    let n = args.qt(4000u64, 300_000u64);
     for h in 0..n {
         let mut r = Rng::derive(args.seed, 0xc01, h);
         let len = r.range(2, 6) as usize;
